@@ -533,6 +533,7 @@ package rpc
 //@   ghostat store Client.list#1: gg_listw() = gg_listw() + 1
 //@   ghostat store Client.list#2: gg_listw() = gg_listw() + 1
 //@   ensures [C18 C17] implies(gg_deqn() == old(gg_deqn()) + 1 && !ggb_deq(), gg_listw() == old(gg_listw()) + 1)
+//@   ensures [C18] implies(!isnil(old(c.Transport)), gg_deqn() == old(gg_deqn()) + 1 || gg_listw() == old(gg_listw()) + 1)
 //@   requires c != nil && t != nil
 //@   requires c.Alpha >= 0.0 && c.Alpha <= 1.0
 //@   loop 1: invariant forall(i, 0, len(l), liveT(c, l[i])) && fresh(l) && forall(i, 0, len(c.list), liveT(c, c.list[i])) && forall(i, 0, len(c.minHeap), liveT(c, c.minHeap[i]))
@@ -663,7 +664,9 @@ package rpc
 //@   atcall ClientCodec.Close#1: [C20] conn.closing && !gb_wasClosing(conn)
 
 //@ field ctxPool: pool *Context
-//@ field callPool: pool *Call
+// a pooled Call keeps no reference to user memory: no context buffer, no reply value, no reply/args objects (C11)
+//@ pure callFree(c *Call) bool = len(c.Buffer) == 0 && cap(c.Buffer) == 0 && len(c.Value) == 0 && cap(c.Value) == 0
+//@ field callPool: pool *Call inv callFree
 //@ field donePool: pool chan *Call
 //@ pure upgradeZero(u *upgrade) bool = u.NoRequest == 0 && u.NoResponse == 0 && u.Heartbeat == 0 && u.Stream == 0
 //@ field upgradePool: pool *upgrade inv upgradeZero
@@ -795,7 +798,7 @@ package rpc
 //@   property C02
 //@   ensures result != nil && result.Done != nil
 //@ func PutCall
-//@   property C02 C19
+//@   property C02 C19 C11
 //@   requires call != nil
 //@   ghostset gg_putcall() = gg_putcall() + 1
 //@ func checkDone
@@ -1116,6 +1119,7 @@ package rpc
 //@   ensures [C08] implies(err == nil && ctx.upgrade.Stream != 2, ctx.f != nil && !isnil(ctx.args))
 //@   atcall ServerCodec.ReadRequestBody#5: [C11] server.noCopy || len(arg0) == 0 || arr(arg0) != arr(ctx.buffer)
 //@   atcall ServerCodec.ReadRequestBody#5: [C11] server.noCopy || len(arg0) == 0 || arr(arg0) != arr(ctx.data)
+//@   atcall ServerCodec.ReadRequestBody#5: [C11] server.noCopy || len(arg0) == 0 || arr(arg0) != arr(ctx.value)
 //@   ensures [C08] implies(err == nil && ctx.upgrade.Stream == 0 && ctx.upgrade.NoRequest != 1 && ctx.upgrade.NoResponse != 1 && !gb_retout(ctx.f), !isnil(ctx.reply))
 
 //@ func (*Server).callService
@@ -1291,7 +1295,8 @@ package rpc
 //@ func (*connQueue).Enqueue
 //@   trusted
 //@   property C13
-//@   requires q != nil && implies(value != nil, gf_addr(value) == sid(q.addr) && value.Conn != nil)
+//@   requires q != nil
+//@   requires [C13 C14 C15 C20] implies(value != nil, gf_addr(value) == sid(q.addr) && value.Conn != nil)
 //@   ensures implies(old(q.length) == q.capacity || value == nil, !result && q.length == old(q.length))
 //@   ensures implies(old(q.length) != q.capacity && value != nil, result && q.length == old(q.length) + 1)
 //@   modifies q.length
@@ -1311,6 +1316,8 @@ package rpc
 //@   atcall delete#1: [C13 C15] len(cs.Conns) == 0
 //@   atcall delete#2: [C13 C15] cq.length == 0
 //@   atcall (*Conn).Close#1: [C15] gb_sawIdle(pc.Conn)
+//@   atcall (*connQueue).Enqueue#1: [C14] true
+//@   atcall (*connQueue).Enqueue#2: [C14] true
 
 //@ lockinv Server.mut
 //@   property C20
